@@ -37,7 +37,7 @@ func (c *cc) convertAlterTableStmt(n *pcast.AlterTableStmt) ast.Node {
 				name := def.Name.String()
 				columnDef := ast.ColumnDef{
 					Colname:   def.Name.String(),
-					TypeName:  &ast.TypeName{Name: types.TypeStr(def.Tp.Tp)},
+					TypeName:  &ast.TypeName{Name: types.TypeToStr(def.Tp.Tp, def.Tp.Charset)},
 					IsNotNull: isNotNull(def),
 				}
 				if def.Tp.Flen >= 0 {
@@ -67,7 +67,7 @@ func (c *cc) convertAlterTableStmt(n *pcast.AlterTableStmt) ast.Node {
 				name := def.Name.String()
 				columnDef := ast.ColumnDef{
 					Colname:   def.Name.String(),
-					TypeName:  &ast.TypeName{Name: types.TypeStr(def.Tp.Tp)},
+					TypeName:  &ast.TypeName{Name: types.TypeToStr(def.Tp.Tp, def.Tp.Charset)},
 					IsNotNull: isNotNull(def),
 				}
 				if def.Tp.Flen >= 0 {
@@ -236,7 +236,7 @@ func (c *cc) convertCreateTableStmt(n *pcast.CreateTableStmt) ast.Node {
 		}
 		columnDef := ast.ColumnDef{
 			Colname:   def.Name.String(),
-			TypeName:  &ast.TypeName{Name: types.TypeStr(def.Tp.Tp)},
+			TypeName:  &ast.TypeName{Name: types.TypeToStr(def.Tp.Tp, def.Tp.Charset)},
 			IsNotNull: isNotNull(def),
 			Comment:   comment,
 			Vals:      vals,
